@@ -151,6 +151,10 @@ def wrappers_refuse_nothing(ctx, R):
         ci = m.get_class(cls)
         ctx.require(ci is not None and "decode" in ci.methods, f"{m.relpath}: {cls}.decode vanished")
         own = [x for mn in ("decode", "_sub_message_decoder") if mn in ci.methods for x in walk_no_nested(ci.methods[mn]) if isinstance(x, ast.Raise)]
+        # ... and they forgive nothing either: a DecodeError of the sub-decoder of a *known* sub-type propagates (the frame is
+        # rejected and the connection reset) - it is not caught and papered over with the unsupported fallback
+        tries = [x for mn in ("decode", "_sub_message_decoder") if mn in ci.methods for x in walk_no_nested(ci.methods[mn]) if isinstance(x, ast.Try) and any(h.type is None or any(n_ in norm_text(h.type) for n_ in ("DecodeError", "Exception", "ValueError")) for h in x.handlers)]
+        ctx.check(not tries, R, f"{gen}.{mod}.{cls}:forgives-nothing", m, (tries[0] if tries else ci.methods["decode"]), "the wrapper decoder contains no handler for decode failures of its sub-decoder: a malformed known sub-message rejects the frame", f"handler at line {tries[0].lineno}: a malformed known sub-message is delivered as an 'unsupported' one" if tries else "")
         ctx.check(not own, R, f"{gen}.{mod}.{cls}:refuses-nothing", m, (own[0] if own else ci.methods["decode"]), "the wrapper decoder raises nothing itself: every sub-type goes to its decoder or to the unsupported fallback", f"`{norm_text(own[0])[:80]}` at line {own[0].lineno}" if own else "")
 
 
